@@ -310,7 +310,15 @@ class CancelScope(AbstractCancelScope):
             self.__host_task_cancel_calls -= 1
             if host_task.uncancel() <= self.__host_task_cancelling:
                 return True
-        return self.__cancellation_id() in exc.args
+        if self.__cancellation_id() not in exc.args:
+            return False
+        if host_task.cancelling() > self.__host_task_cancelling:
+            # There are still cancellation requests which do not come from this scope. Unless an enclosing scope is cancelled
+            # too (it will handle them), a foreign request (task.cancel(), task group abort) has been merged into this
+            # exception: it must not be swallowed.
+            if not any(scope.__cancel_called for scope in self._inner_to_outer_task_scopes(host_task)):
+                return False
+        return True
 
     def __deliver_cancellation(self) -> None:
         if self.__host_task is None:
